@@ -2681,13 +2681,20 @@ def _send_event_sites(model: WSModel, f: Func, cfg):
     for n in cfg.live_nodes():
         for c in n.calls():
             if (model._self_method(f, c) is not None or model.is_raw_send_call(c)) and c.args and model.event_type(f, c.args[0], {}) == 'websocket.send':
-                ev = _one_def(f, c.args[0])
-                if not isinstance(ev, ast.Dict) or any(k is None for k in ev.keys):
-                    raise UnknownIdiom('%s: the websocket.send event is built by %s' % (f.qual, short(ev)))
-                at = [m.id for m in cfg.live_nodes() if any(x is ev for x in m.walk())]
-                if not at:
-                    raise UnknownIdiom('%s: event literal %s not found in the CFG' % (f.qual, short(ev)))
-                out.append((n, c, ev, at))
+                ev0 = _one_def(f, c.args[0])
+                evs = [ev0]
+                if isinstance(ev0, ast.Name) and ev0.id not in f.params():
+                    # one literal per branch, one trailing emission: every literal bound to the local is a site of its own
+                    ds = local_defs(f, ev0.id)
+                    if len(ds) > 1 and all(isinstance(d, ast.Dict) for d in ds):
+                        evs = ds
+                for ev in evs:
+                    if not isinstance(ev, ast.Dict) or any(k is None for k in ev.keys):
+                        raise UnknownIdiom('%s: the websocket.send event is built by %s' % (f.qual, short(ev)))
+                    at = [m.id for m in cfg.live_nodes() if any(x is ev for x in m.walk())]
+                    if not at:
+                        raise UnknownIdiom('%s: event literal %s not found in the CFG' % (f.qual, short(ev)))
+                    out.append((n, c, ev, at))
     if not out:
         raise AnchorError('%s: emission of the websocket.send event not found' % f.qual)
     return out
@@ -2828,7 +2835,7 @@ def r10_event_payloads(run):
         return atom
 
     sites = _send_event_sites(model, f, cfg)
-    site_key: Dict[int, str] = {}
+    site_key: List[tuple] = []      # (payload key, nodes evaluating the literal, emit node, nodes binding ANOTHER literal)
     for (n, c, ev, at) in sites:
         if _event_mutations(f, ev):
             raise UnknownIdiom('%s: the websocket.send event is filled in after it was built' % f.qual)
@@ -2838,7 +2845,7 @@ def r10_event_payloads(run):
             run.fail('send_media: the event carries exactly one payload key', f, ev, runtime_witness='a frame with both/no payloads is handed to the server')
             continue
         key = pk[0]
-        site_key[n.id] = key
+        site_key.append((key, set(at), n.id, set(a for (_n2, _c2, ev2, at2) in sites if ev2 is not ev for a in at2 if a != n.id)))
         val = strip_await(_one_def(f, keys[key]))
         kind = None
         if isinstance(val, ast.Call) and isinstance(val.func, ast.Attribute) and isinstance(val.func.value, ast.Name) and val.func.value.id == 'self':
@@ -2858,8 +2865,12 @@ def r10_event_payloads(run):
                   f, '%r: %s' % (key, short(val)), where=f.loc(val),
                   runtime_witness='send_media(obj) puts %s into a %s frame' % ('an unserialized object' if not through else 'the output of the other handler', key))
     for member, key in (('TEXT', 'text'), ('BINARY', 'bytes')):
-        reach = flow.reachable(cfg, [cfg.entry], edge_filter=feasible(cfg, pt_atom(member)))
-        got = sorted({site_key[i] for i in site_key if i in reach})
+        filt = feasible(cfg, pt_atom(member))
+        reach = flow.reachable(cfg, [cfg.entry], edge_filter=filt)
+        # the literal is evaluated for this payload type AND it is the one in hand at the emission (def-use: no other literal
+        # is bound in between)
+        got = sorted({k for (k, at, emit, others) in site_key
+                      if any(a in reach and (a == emit or emit in flow.reachable(cfg, [a], avoid_nodes=others, edge_filter=filt)) for a in at)})
         run.check(got == [key], 'send_media: payload_type=%s builds a %r event and nothing else' % (member, key), f, 'payload_type %s -> %s' % (member, key),
                   witness=['events reachable: %s' % (got or 'none')],
                   runtime_witness='send_media(obj, WebSocketPayloadType.%s) sends a frame of the other kind' % member)
